@@ -89,9 +89,41 @@ def clifford_ops(draw, n, max_len=60, allow_macros=True):
 @st.composite
 def circuit_case(draw, ns=(2, 3, 4, 5, 6), max_len=60):
     n, name = draw(config_strategy(ns))
-    kind = draw(st.sampled_from(["random", "random", "graph+local", "routed"]))
+    kind = draw(st.sampled_from(["random", "random", "graph+local", "routed", "almost-routed", "cheap-with-swaps"]))
     if kind == "random":
         ops = draw(clifford_ops(n, max_len))
+    elif kind == "cheap-with-swaps":
+        # very short entangling circuits that move qubits around with SWAPs between ARBITRARY qubits: cheaper (swap = 3) than what
+        # the connectivity-respecting optimum for the resulting state may cost -- an input that leaves "nothing to gain"
+        edges = sorted(coupling.edge_set(n, name))
+        ops = [["h", [q]] for q in range(n) if draw(st.booleans())]
+        for _ in range(draw(st.integers(1, 3))):
+            if draw(st.booleans()) and n >= 2:
+                a = draw(st.integers(0, n - 1)); b = draw(st.integers(0, n - 2)); b = b if b < a else b + 1
+                ops.append(["swap", [a, b]])
+            else:
+                a, b = draw(st.sampled_from(edges))
+                if draw(st.booleans()):
+                    a, b = b, a
+                ops.append([draw(st.sampled_from(["cx", "cz"])), [a, b]])
+            if draw(st.integers(0, 2)) == 0:
+                ops.append([draw(st.sampled_from(["h", "s"])), [draw(st.integers(0, n - 1))]])
+    elif kind == "almost-routed":
+        # CX / CZ only on coupled pairs, but SWAPs between arbitrary qubits (a circuit routed by hand except for its permutations)
+        edges = sorted(coupling.edge_set(n, name))
+        ops = []
+        for _ in range(draw(st.integers(1, min(10, max_len)))):
+            r = draw(st.integers(0, 5))
+            if r == 0 and n >= 2:
+                a = draw(st.integers(0, n - 1)); b = draw(st.integers(0, n - 2)); b = b if b < a else b + 1
+                ops.append(["swap", [a, b]])
+            elif r <= 2:
+                a, b = draw(st.sampled_from(edges))
+                if draw(st.booleans()):
+                    a, b = b, a
+                ops.append([draw(st.sampled_from(["cx", "cz"])), [a, b]])
+            else:
+                ops.append([draw(st.sampled_from(["h", "s", "sdg", "h", "x", "z"])), [draw(st.integers(0, n - 1))]])
     elif kind == "routed":
         # a circuit that already respects the connectivity: few two-qubit gates (swaps included), all on coupled pairs
         edges = sorted(coupling.edge_set(n, name))
